@@ -126,7 +126,8 @@ class Index:
             until = until.to_bytes(4, "big")
             add_time = b"\x00%s\x00" % until
         else:
-            add_time = b""
+            # seek to the end of this match's own keys, not past longer values sharing the prefix
+            add_time = b"\x00\xff\xff\xff\xff"
 
         prev = cursor.prev
         get_key = cursor.key
